@@ -82,6 +82,11 @@ impl Scenario for C03 {
     fn required_probes(&self, _tier: Tier) -> Vec<&'static str> {
         vec!["probe:iv-override-applied"]
     }
+    fn adopts(&self, v: &crate::world::Violation) -> bool {
+        // in these plans every delivery crosses backends: a rejected or differently decoded
+        // sibling token is an interoperability failure
+        matches!((v.property, v.class.as_str()), ("C01", "authentic-rejected" | "roundtrip-mismatch" | "seal-failed" | "wrong-token-length"))
+    }
     fn plan(&self, seed: u64, run: u64, tier: Tier) -> Plan {
         let mut r0 = crate::prng::Rng::derive(seed, "c03-nodes", run);
         let (f, nodes) = family_nodes(&mut r0);
@@ -170,6 +175,9 @@ impl Scenario for C07 {
     fn assumptions(&self) -> Vec<String> {
         vec!["k1.seal (raw RSA-KEM) cannot be recomputed by a second provider offline".into(), "PBKW parallelism is kept at 1 (libsodium cannot do otherwise)".into()]
     }
+    fn adopts(&self, v: &crate::world::Violation) -> bool {
+        matches!((v.property, v.class.as_str()), ("C05", "authentic-blob-rejected" | "roundtrip-mismatch" | "wrap-failed" | "wrong-blob-length-or-header"))
+    }
     fn plan(&self, seed: u64, run: u64, tier: Tier) -> Plan {
         let mut r0 = crate::prng::Rng::derive(seed, "c07-nodes", run);
         let (f, nodes) = family_nodes(&mut r0);
@@ -225,7 +233,29 @@ impl Scenario for C07 {
                 b.push(Step::Unwrap { blob, node, with: with_u.clone(), faults: vec![], as_kind: None });
             }
         }
-        let _ = PwParams::Default;
+        // Argon2id with parallelism > 1 (RustCrypto backends only: libsodium cannot compute it; the
+        // reference follows through a known-answer table made with a third implementation)
+        if matches!(f, 2 | 4) {
+            let rows: Vec<_> = crate::fixtures::argon_rows().into_iter().filter(|r| r.para > 1).collect();
+            let rc_node = nodes.iter().position(|n| matches!(n, Bk::V2 | Bk::V4)).unwrap_or(0);
+            for _ in 0..2 {
+                let r = rows[b.rng.usize_below(rows.len())].clone();
+                let params = PwParams::Argon(r.mem, r.time, r.para);
+                let with = SecretRef::Password { bytes: Bytes::hex(&r.password) };
+                let (key, _) = if b.rng.bool() { (fk.secret, Kind::Secret) } else { (fk.local, Kind::Local) };
+                let blob = b.blob_slot();
+                if b.rng.bool() {
+                    let mut e = r.salt.clone();
+                    e.extend(crate::prng::Rng::new(b.ev_seed()).bytes(24));
+                    b.push(Step::RefWrap { blob, family: f, wk: WrapKind::Pw, key, with: with.clone(), params, entropy: Bytes::hex(&e) });
+                } else {
+                    // the library draws the salt first: script that draw so that the reference can follow
+                    let rng = RngSpec::Script { draws: vec![hex::encode(&r.salt)], seed: b.ev_seed() };
+                    b.push(Step::Wrap { blob, node: rc_node, wk: WrapKind::Pw, key, with: with.clone(), params, rng });
+                }
+                b.push(Step::Unwrap { blob, node: rc_node, with, faults: vec![], as_kind: None });
+            }
+        }
         b.finish()
     }
 }
